@@ -123,9 +123,35 @@ func (propC05) Gen(r *Rng, idx int, tier string) *Scenario {
 	sc.Decl = c05Decl(r)
 	sc.World = WorldSpec{Cols: 80, Now: 1700000000, Env: map[string]BStr{}}
 	p := sc.C05
-	p.Shape = r.Fork("shape").Pick([]string{"ini-parse", "defini-parse", "parse-defini", "parse", "defini-parse", "parse-defini", "parse-parse", "ini-failparse-parse"})
+	p.Shape = r.Fork("shape").Pick([]string{"ini-parse", "defini-parse", "parse-defini", "parse", "defini-parse", "parse-defini", "parse-parse", "ini-failparse-parse", "ini-parse-defini", "failini-parse", "parse-delim-parse"})
 	p.Plan = genPlan(r.Fork("plan"), sc.Decl)
 	ois := optInfos(sc.Decl)
+	if br := r.Fork("badcli"); br.Chance(1, 12) {
+		// one command-line value that does not convert: an error must come back
+		var cands []int
+		for i, t := range p.Plan.Toks {
+			b := baseKind(t.Kind)
+			if (t.Role == "val" || t.Role == "optval") && !isFuncKind(t.Kind) && (strings.Contains(b, "int") || strings.Contains(b, "float") || (isMapKind(t.Kind) && strings.Contains(mapKeyKind(t.Kind), "int"))) {
+				cands = append(cands, i)
+			}
+		}
+		if len(cands) > 0 {
+			t := &p.Plan.Toks[cands[br.Intn(len(cands))]]
+			bad := "x!y"
+			if isMapKind(t.Kind) {
+				bad = "k:x!y"
+				if strings.Contains(mapKeyKind(t.Kind), "int") {
+					bad = "x!y:v"
+				}
+			}
+			t.Val = bad
+			if t.Role == "optval" {
+				t.Text = t.Name + bad
+			} else {
+				t.Text = bad
+			}
+		}
+	}
 	sr := r.Fork("sources")
 	p.Env0 = map[string]BStr{}
 	for _, oi := range ois {
@@ -171,7 +197,7 @@ func (propC05) Gen(r *Rng, idx int, tier string) *Scenario {
 			}
 		}
 		// INI entries
-		if p.Shape != "parse" && p.Shape != "parse-parse" && !o.NoIni && sr.Chance(1, 3) {
+		if p.Shape != "parse" && p.Shape != "parse-parse" && p.Shape != "parse-delim-parse" && !o.NoIni && sr.Chance(1, 3) {
 			n := 1
 			if isSliceKind(o.Kind) || isMapKind(o.Kind) {
 				n = sr.Range(1, 3)
@@ -380,7 +406,7 @@ func (propC05) Judge(sc *Scenario) *Verdict {
 		s2.World.Env[k] = val
 	}
 	s2.Ops = append([]Op{}, p.Stores...)
-	iniOp := Op{Kind: "iniread", Data: BStr(p.iniText()), AsDefaults: p.Shape != "ini-parse" && p.Shape != "ini-failparse-parse"}
+	iniOp := Op{Kind: "iniread", Data: BStr(p.iniText()), AsDefaults: p.Shape != "ini-parse" && p.Shape != "ini-failparse-parse" && p.Shape != "ini-parse-defini" && p.Shape != "failini-parse"}
 	parseOp := Op{Kind: "parse", Argv: bstrs(p.Plan.argv())}
 	parseIdx := 0
 	switch p.Shape {
@@ -394,6 +420,33 @@ func (propC05) Judge(sc *Scenario) *Verdict {
 		s2.Ops = append(s2.Ops, parseOp)
 		s2.Ops = append(s2.Ops, p.EnvMid...) // must not matter: ParseArgs has run
 		s2.Ops = append(s2.Ops, iniOp)
+	case "ini-parse-defini":
+		// INI read, ParseArgs, then the SAME text read again as defaults through the
+		// same IniParser (a configuration reload): the command line keeps its rank
+		s2.Ops = append(s2.Ops, iniOp)
+		s2.Ops = append(s2.Ops, p.EnvMid...)
+		parseIdx = len(s2.Ops)
+		s2.Ops = append(s2.Ops, parseOp)
+		again := iniOp
+		again.AsDefaults = true
+		s2.Ops = append(s2.Ops, again)
+	case "failini-parse":
+		// an INI text whose last line is faulty (the read fails), then ParseArgs
+		bad := iniOp
+		bad.Data = BStr(string(iniOp.Data) + "[Application Options]\nno-such-key-zz = 1\n")
+		s2.Ops = append(s2.Ops, bad)
+		s2.Ops = append(s2.Ops, p.EnvMid...)
+		parseIdx = len(s2.Ops)
+		s2.Ops = append(s2.Ops, parseOp)
+	case "parse-delim-parse":
+		// the env-namespace delimiter is changed between two ParseArgs: the variable
+		// looked up is the one spelt with the delimiter in force at the time
+		s2.Ops = append(s2.Ops, Op{Kind: "setenvdelim", Text: "+"})
+		s2.Ops = append(s2.Ops, Op{Kind: "parse"})
+		s2.Ops = append(s2.Ops, Op{Kind: "setenvdelim", Text: BStr(envNSDelim(d))})
+		s2.Ops = append(s2.Ops, p.EnvMid...)
+		parseIdx = len(s2.Ops)
+		s2.Ops = append(s2.Ops, parseOp)
 	case "ini-failparse-parse":
 		// INI read, then a ParseArgs that is rejected, then the judged ParseArgs: the
 		// aborted parse must not disturb what the INI established
@@ -455,7 +508,7 @@ func (propC05) Judge(sc *Scenario) *Verdict {
 		}
 	}
 	firstParseBad := ""
-	if p.Shape == "parse-parse" {
+	if p.Shape == "parse-parse" || p.Shape == "parse-delim-parse" {
 		// what the first ParseArgs (empty command line, environment Env0) leaves in the fields
 		env1 := map[string]string{}
 		for k, val := range p.Env0 {
@@ -466,6 +519,15 @@ func (propC05) Judge(sc *Scenario) *Verdict {
 				continue
 			}
 			src := c05Model(oi, d, nil, nil, env1)
+			if p.Shape == "parse-delim-parse" && oi.O.Env != "" {
+				// during the first parse the variable name is spelt with the "+" delimiter
+				key1 := strings.Join(append(append([]string{}, oi.EnvNS...), oi.O.Env), "+")
+				e1 := map[string]string{}
+				if val, ok := env1[key1]; ok {
+					e1[oi.EnvFull] = val
+				}
+				src = c05Model(oi, d, nil, nil, e1)
+			}
 			if src.name == "stored" {
 				if isSliceKind(oi.O.Kind) || isMapKind(oi.O.Kind) {
 					if _, ok := stored[oi.Path]; !ok {
@@ -522,7 +584,7 @@ func (propC05) Judge(sc *Scenario) *Verdict {
 			}
 		}
 	}
-	if p.Shape == "parse-parse" {
+	if p.Shape == "parse-parse" || p.Shape == "parse-delim-parse" {
 		for i := 0; i < parseIdx; i++ {
 			if o.Ops[i].Op == "parse" && o.Ops[i].Err != "" {
 				v.NotJudged = "first parse of a reused parser rejected"
@@ -618,6 +680,15 @@ func (propC05) Judge(sc *Scenario) *Verdict {
 			ir = &o.Ops[i]
 		}
 	}
+	failedIni := false
+	if p.Shape == "failini-parse" && ir != nil && ir.Err != "" {
+		// the read was meant to fail on its last line; what it applied before is
+		// allowed to stand or to be discarded, see below
+		failedIni = true
+		ok := *ir
+		ok.Err = ""
+		ir = &ok
+	}
 	if predictErr == "" && boundaryOpt != "" {
 		v.NotJudged = "winning source is the empty text for a non-string kind (conversion boundary)"
 		return finish()
@@ -630,6 +701,19 @@ func (propC05) Judge(sc *Scenario) *Verdict {
 			v.NotJudged = "model predicts a conversion failure (error was returned)"
 		}
 		return finish()
+	}
+	if failedIni && pr.Err != "" {
+		// after a failed read the entries it did not get to apply leave their options
+		// to the next source; if that one does not convert, the rejection is in order
+		for _, oi := range ois {
+			if len(ini[oi.Path]) == 0 || len(cli[oi.Path]) > 0 {
+				continue
+			}
+			if ok, _ := sourceConverts(oi, c05Model(oi, d, cli, nil, env)); !ok {
+				v.NotJudged = "after the failed INI read an unconvertible lower source may legitimately be applied"
+				return finish()
+			}
+		}
 	}
 	if pr.Err != "" || (ir != nil && ir.Err != "") {
 		// every winning source converts (per the model), yet something was rejected:
@@ -723,8 +807,8 @@ func (propC05) Judge(sc *Scenario) *Verdict {
 			for _, s := range present {
 				has[s] = true
 			}
-			if p.Shape == "parse-parse" {
-				continue // the first parse already ran the callbacks for its sources
+			if p.Shape == "parse-parse" || p.Shape == "parse-delim-parse" || p.Shape == "ini-parse-defini" || p.Shape == "failini-parse" {
+				continue // an earlier operation already ran the callbacks for its sources
 			}
 			if has["cli"] && has["ini"] {
 				continue // the INI read already ran the callback before the command line was seen
@@ -761,6 +845,28 @@ func (propC05) Judge(sc *Scenario) *Verdict {
 			continue
 		}
 		got := final[oi.Path]
+		if got != e.want && failedIni && e.src.name == "ini" {
+			// after a failed read either the entries it had applied count, or none of them
+			alt := c05Model(oi, d, cli, nil, env)
+			altWant := ""
+			if alt.name == "stored" {
+				sv, ok := stored[oi.Path]
+				if !ok {
+					sv = zeroV(k)
+				}
+				altWant = dumpV(k, sv)
+			} else if val, err := modelApply(k, alt.texts); err == nil {
+				altWant = dumpV(k, val)
+			} else {
+				continue
+			}
+			if got == altWant {
+				continue
+			}
+			v.failAttr("C05", "c05:precedence", fmt.Sprintf("option %s (%s): the INI read failed on a later line; the value must be what the file gave (%s) or what the next source gives (%s %q: %s), but it is %s\nshape=%s env=%v ini=%q argv=%q",
+				oi.Path, k, clip(e.want, 200), alt.name, alt.texts, clip(altWant, 200), clip(got, 200), p.Shape, env, p.iniText(), p.Plan.argv()), attrs)
+			continue
+		}
 		if got != e.want {
 			v.failAttr("C05", "c05:precedence", fmt.Sprintf("option %s (%s): sources present {%s}; the highest-ranked one is %s %q, so the value must be %s, but it is %s\nshape=%s env=%v ini=%q argv=%q stored=%v",
 				oi.Path, k, strings.Join(present, ","), e.src.name, e.src.texts, clip(e.want, 300), clip(got, 300), p.Shape, env, p.iniText(), p.Plan.argv(), mustJSON(stored[oi.Path])), attrs)
